@@ -580,4 +580,61 @@ example :
     (readV (2 * jsize j) (render j ++ [10])).map (fun p => (render p.1, p.2)) = some (render j, [10]) ∧
     render j = ofAscii "{\"a\\\"b\":[-12,\"\\\"\\\\\\n" ++ [0x1F600] ++ ofAscii "\",{},[],null],\"\":true}" := by decide
 
+/-! ### a stream of records (every length) -/
+
+/-- a line-oriented reader of the output stream: one JSON value, then the newline, then the next line -/
+def readStream : List Nat → Str → Option (List J)
+  | [], [] => some []
+  | [], _ :: _ => none
+  | f :: fs, s =>
+    match readV f s with
+    | some (j, 10 :: rest) => (readStream fs rest).map (j :: ·)
+    | _ => none
+
+/-- **C14.stream_roundtrip** — the concatenation of ANY number of rendered well-formed values, each followed by its newline, is
+read back line by line as exactly those values in exactly that order: no line swallows part of the next, none is split -/
+theorem stream_roundtrip (js : List J) (hw : ∀ j ∈ js, wf j) :
+    readStream (js.map (fun j => 2 * jsize j)) (js.flatMap (fun j => render j ++ [10])) = some js := by
+  induction js with
+  | nil => simp [readStream]
+  | cons j js ih =>
+    have h1 : readV (2 * jsize j) (render j ++ (10 :: js.flatMap (fun j => render j ++ [10]))) =
+        some (j, 10 :: js.flatMap (fun j => render j ++ [10])) :=
+      render_roundtrip j _ (hw j (by simp)) (by intro x r h; cases h; decide)
+    have h2 := ih (fun x hx => hw x (by simp [hx]))
+    simp only [List.map_cons, List.flatMap_cons, List.append_assoc, List.cons_append, List.nil_append, readStream, h1, h2,
+      Option.map_some]
+
+/-- one record of the history: configuration, level, target, event fields, span scope -/
+structure Rec where
+  c : Cfg
+  lvl : Nat
+  target : Str
+  fs : List (Str × Val)
+  scope : List SpanData
+
+def Rec.obj (r : Rec) : J := eventObj r.c r.lvl r.target r.fs r.scope
+def Rec.line (r : Rec) : Str := recordLine r.c r.lvl r.target r.fs r.scope
+
+/-- **C14.output_is_one_object_per_line** — the whole output of a history of records of ANY length (every configuration, every
+field set, every scope) is read back by the line-oriented reader as exactly one object per record, in the order of the records,
+each the object the formatter was given -/
+theorem output_is_one_object_per_line (rs : List Rec)
+    (hf : ∀ r ∈ rs, FloatsOK r.fs) (hs : ∀ r ∈ rs, ∀ sd ∈ r.scope, wfF sd.fields) :
+    readStream (rs.map (fun r => 2 * jsize r.obj)) (rs.flatMap Rec.line) = some (rs.map Rec.obj) := by
+  have h := stream_roundtrip (rs.map Rec.obj) (by
+    intro j hj
+    obtain ⟨r, hr, rfl⟩ := List.mem_map.mp hj
+    exact eventObj_wf r.c r.lvl r.target r.fs r.scope (hf r hr) (hs r hr))
+  have hl : Rec.line = fun a : Rec => render (eventObj a.c a.lvl a.target a.fs a.scope) ++ [10] := rfl
+  rw [hl]
+  simpa [List.map_map, List.flatMap_map, Function.comp_def, Rec.obj] using h
+
+
+example :
+    let js : List J := [.obj [(ofAscii "a", .arr [.num (ofAscii "-12"), .null])], .obj [], .obj [(ofAscii "", .bool true)]]
+    (readStream (js.map (fun j => 2 * jsize j)) (js.flatMap (fun j => render j ++ [10]))).map (·.map render) = some (js.map render) ∧
+    (readStream (js.map (fun j => 2 * jsize j)) ((js.flatMap (fun j => render j ++ [10])).drop 1)).map (·.map render) = none := by
+  decide
+
 end C14
